@@ -22,7 +22,13 @@ PARTS = TH.METRICS + ["misc"]
 
 def build(sizes=None, only=None, part=None):
     from props import thr2
-    return thr2.build(sizes, only, ("C03",), part)
+    obs = thr2.build(sizes, only, ("C03",), part)
+    if sizes is None and only is None and part in (None, "misc"):
+        # "the metric equals exactly its lowest / highest achievable value for that Scores object": Scores.cm's cell contract (C01's)
+        # is re-discharged here so that the count-space clauses carry over to the object's own metric inside this check
+        from props import c01
+        obs += c01.build_cm(None, "C03")
+    return obs
 
 
 def oracle(case):
